@@ -183,6 +183,10 @@ func runC13(ctx *Ctx) {
 		spawn(func() {
 			rng := ctx.Sub(i)
 			ops := genScript(rng, 10+rng.Intn(25), false)
+			if lc := c12Lifecycles(); i%5 == 4 {
+				// a node and an account with unusual names, their whole life, with restarts in between
+				ops = lc[(i/5)%len(lc)]
+			}
 			// reopen after random operations
 			var script []*SOp
 			for _, o := range ops {
